@@ -346,7 +346,9 @@ void Value::do_jacobi_symbol() {
     arith_uint256 n, k, t(0);
 
     std::vector<std::vector<uint8_t>> args;
-    if (!extract_values(args)) {
+    // a single 32 byte value is n itself (two pushed operands take 66 bytes); do not try to read it as a script of
+    // pushes first: a value starting with 0x1f (or 0x01 .. 0x1d ..) happens to parse as one
+    if (data.size() == 32 || !extract_values(args)) {
         // user omitting k value; use secp256k1 field
         if (data.size() != 32) abort("n must be 32 bytes (not %zu)", data.size());
         n = UintToArith256(uint256(data));
